@@ -1,6 +1,6 @@
 #!/bin/bash
 # usage: tools/run_all.sh [tier] [seed]  - runs every registered check once; prints exit code and wall time; validates evidence
-cd /verif
+cd "$(dirname "$0")/.."
 TIER="${1:-quick}"; export VERIF_SEED="${2:-0}"
 for id in $(python3 -c "import json; print(' '.join(c['property_id'] for c in json.load(open('MANIFEST.json'))['checks']))"); do
   t0=$(date +%s.%N)
